@@ -373,8 +373,12 @@ def _draw_fields(rng, world, ev):
         ev["ds"] = rng.getrandbits(31)
         # buggify: most runs meet a refill; pointer near the end of the batch
         r = rng.random()
+        vmax = max([ev.get("v", 1) or 1] + [it[1] for it in ev.get("items", [])] + [len(ev.get("keys", []))])
         if r < 0.25:
             ev["ptr"] = rng.randrange(2040, 2049)
+            if vmax > 9 and rng.random() < 0.5:
+                # the batch runs out in the middle of this call, not at its first draw
+                ev["ptr"] = 2048 - rng.randrange(1, min(vmax, 2000))
         elif r < 0.35:
             ev["ptr"] = rng.randrange(0, 2049)
         else:
